@@ -48,7 +48,7 @@ CFG = {
 @st.composite
 def _scn(draw):
     scn = draw(st.one_of(hist.scenarios_deep(CFG), hist.scenarios_deep(dict(CFG, final=["create_sf"]))))
-    extra = draw(st.sampled_from([None, None, None, "prefix", "prefix", "big", "twins", "deep_sf", "altered_multi"]))
+    extra = draw(st.sampled_from([None, None, None, "prefix", "prefix", "big", "twins", "deep_sf", "altered_multi", "dotdot_top"]))
     if extra == "prefix":
         # a nested history whose folder name is a prefix of a sibling folder / file that has no history of its own
         base = draw(st.sampled_from(["Clips", "s", "A", "Reel1"]))
@@ -71,6 +71,16 @@ def _scn(draw):
             scn["tree"]["dsf"] = {"l1": {"l2": {"l3": {"deep.mov": "d3"}, "mid.mov": "d2"}, "up.mov": "d1"}, "top.mov": "d0"}
             pre = [{"op": "create", "root": "dsf/l1/l2", "formats": ["md5"], "flags": []}] if draw(st.booleans()) else []
             scn["steps"] = pre + scn["steps"] + [{"op": "create_sf", "root": "", "formats": draw(gen.formats(2)), "flags": [], "sf": [draw(st.sampled_from(["dsf", "dsf/l1", "dsf"]))]}]
+    elif extra == "dotdot_top":
+        # files directly in a history root (the outer one and a nested one) whose names begin with two dots, and a
+        # backslash in a name (an ordinary character here)
+        if not ({"..metadata", "dd"} & hist.top_names_used(scn)):
+            scn["tree"]["..metadata"] = "not a parent reference"
+            scn["tree"]["..."] = "three dots"
+            scn["tree"]["dd"] = {"..sync state": "in a nested root", "take\\1.bin": "backslash", "x": {"..deeper": "fine anyway"}}
+            pre = [{"op": "create", "root": "dd", "formats": ["md5"], "flags": []}] if draw(st.booleans()) else []
+            scn["steps"] = pre + scn["steps"] + [{"op": "create_sf", "root": "", "formats": draw(gen.formats(2)), "flags": [], "sf": draw(st.sampled_from([["..metadata", "dd/..sync state"], ["dd"], ["...", "dd/take\\1.bin"]]))},
+                                                 {"op": "create", "root": "", "formats": draw(gen.formats(2)), "flags": []}]
     elif extra == "altered_multi":
         # a file recorded in two or three formats is altered and sealed again in those formats (folder mode or -sf): exit 11
         if "am" not in hist.top_names_used(scn):
